@@ -149,6 +149,13 @@ func c04Scenarios() []*c04Scenario {
 			return obsSingle(w.C("d", "c").FindOneAndUpdate(ctx, bD("_id", int32(1)), bD("$inc", bD("n", int32(1)), "$set", bD("last", "mk-"+tag)), options.FindOneAndUpdate().SetReturnDocument(options.After)))
 		}}
 	}
+	// a find-one-and-update whose projection is rejected: it reports an error and writes nothing
+	foauBad := func() *c04Op {
+		return &c04Op{name: "FindOneAndUpdate($inc n, rejected projection)", write: true, owns: func(string) bool { return false }, run: func(w *world.World, ctx context.Context) string {
+			err := w.C("d", "c").FindOneAndUpdate(ctx, bD("_id", int32(1)), bD("$inc", bD("n", int32(100))), options.FindOneAndUpdate().SetProjection(bD("n", int32(1), "tag", int32(0)))).Err()
+			return world.ErrClass(err)
+		}}
+	}
 	touch := func(tag string) *c04Op {
 		// moves the TTL field of the expiring document into the future
 		return &c04Op{name: "UpdateOne($set t: future)", write: true, owns: tagged(tag), run: func(w *world.World, ctx context.Context) string {
@@ -400,6 +407,21 @@ func c04Scenarios() []*c04Scenario {
 				return ""
 			}},
 		{name: "S9 two threads sharing one session transaction", setup: seed(d1), threads: [][]*c04Op{{ins("x", 2)}, {ins("y", 3)}}, txn: []bool{true, true}},
+		{name: "S9b two threads sharing one session transaction, one call rejected after its write", setup: seed(d1), threads: [][]*c04Op{{foauBad(), foauBad()}, {ins("y", 3), ins("z", 4)}}, txn: []bool{true, true},
+			expect: func(calls []*c04Call, final string) string {
+				for _, c := range calls {
+					if strings.HasPrefix(c.op.name, "InsertOne") && c.result == "ok" && !strings.Contains(final, strings.TrimSuffix(strings.TrimPrefix(c.op.name, "InsertOne({_id:"), "})")+`"},"tag"`) {
+						return c.op.name + " was acknowledged inside the shared transaction, the transaction committed, and the document is not there: " + final
+					}
+					if strings.HasPrefix(c.op.name, "FindOneAndUpdate") && c.result != "err" {
+						return c.op.name + " returned " + c.result
+					}
+				}
+				if !strings.Contains(final, `"n":{"$numberInt":"0"}`) {
+					return "a rejected find-one-and-update left its write behind: " + final
+				}
+				return ""
+			}},
 	}
 }
 
